@@ -1128,4 +1128,257 @@ Proof using All.
     rewrite Em. destruct ((3 <=? v) && (v <=? 6))%Z; [symmetry; apply skipn_map|]. destruct (v =? 9)%Z; [symmetry; apply skipn_map|reflexivity]. }
   rewrite Ebody. reflexivity.
 Qed.
+
+(* ---- 68 ---------------------------------------------------------------------------------------------------------------- *)
+Lemma term_zero q w : term q w 0 = 0%Z.
+Proof. destruct q; cbn [term]; rewrite Z.mul_0_r; reflexivity. Qed.
+
+Lemma tsum_all_zeros q : forall ws k, tsum q ws (repeat 0%Z k) = 0%Z.
+Proof. induction ws as [|w ws IH]; intros [|k]; cbn [repeat tsum]; try reflexivity. rewrite IH, term_zero. reflexivity. Qed.
+
+Lemma tsum_zeros q : forall ws xs k, tsum q ws (xs ++ repeat 0%Z k) = tsum q ws xs.
+Proof.
+  induction ws as [|w ws IH]; intros xs k.
+  - destruct (xs ++ repeat 0%Z k); destruct xs; reflexivity.
+  - destruct xs as [|x xs]; cbn [app]; [rewrite tsum_all_zeros; reflexivity|]. cbn [tsum]. rewrite IH. reflexivity.
+Qed.
+
+(* dropping the leading zeros of the evaluated digits (they are at the end of the reversed list) does not change the sum *)
+Lemma strip_sum q (W : list Z) (sfx : text) :
+  forallb is_ascii_digit sfx = true ->
+  tsum q (cycle_to W [] (List.length (rev (lstrip0 sfx)))) (map dv (rev (lstrip0 sfx)))
+  = tsum q (cycle_to W [] (List.length sfx)) (rev (map dv sfx)).
+Proof.
+  intro Hd. destruct (lstrip0_split sfx) as [k Hk].
+  assert (Ll : (List.length (rev (lstrip0 sfx)) <= List.length sfx)%nat) by (rewrite rev_length; apply lstrip0_length).
+  rewrite (cycle_prefix W _ (List.length sfx) [] Ll). rewrite <- (map_length dv (rev (lstrip0 sfx))), tsum_firstn.
+  assert (Erev : rev (map dv sfx) = map dv (rev (lstrip0 sfx)) ++ repeat 0%Z k).
+  { rewrite Hk at 1. rewrite map_app, rev_app_distr, <- map_rev. f_equal.
+    clear. induction k as [|k IH]; [reflexivity|]. cbn [repeat map rev]. rewrite IH. change (dv 48) with 0%Z.
+    clear. induction k as [|k IH]; [reflexivity|]. cbn [repeat app]. f_equal. exact IH. }
+  rewrite Erev, tsum_zeros. reflexivity.
+Qed.
+
+Definition ok68 (g : gclass) : bool :=
+  (let '(pa, pb, pc) := g_positions g in (pa =? 1)%Z && (pb =? 9)%Z && (pc =? 10)%Z)
+  && k_pos_static (g_pos g) && k_adj_id (g_adj g)
+  && match g_digits g with D68 => true | _ => false end
+  && k_rem_mod (g_rem g) && g_reverse g && k_wsum_plain (g_wsum g)
+  && match g_summand g with SDigitSum => true | _ => false end
+  && zlist_eqb (g_weights g) [2; 1]%Z && (g_modulus g =? 10)%Z
+  && match g_minuend g with Some mm => (mm =? 10)%Z | None => false end
+  && match g_rec g with RecDefault => true | _ => false end
+  && match g_validate g with V68 => true | _ => false end.
+
+Section M68.
+Variable g : gclass.
+Hypothesis OK : ok68 g = true.
+
+Lemma ok68_facts :
+  g_positions g = (1, 9, 10)%Z /\ g_pos g = PStatic /\ g_adj g = AId /\ g_digits g = D68 /\ g_rem g = RMod
+  /\ g_reverse g = true /\ g_wsum g = WPlain /\ g_summand g = SDigitSum /\ g_weights g = [2; 1]%Z
+  /\ g_modulus g = 10%Z /\ g_minuend g = Some 10%Z /\ g_rec g = RecDefault /\ g_validate g = V68.
+Proof using OK.
+  pose proof OK as H. unfold ok68 in H. repeat (apply andb_true_iff in H as [H ?]).
+  destruct (g_positions g) as [[pa pb] pc] eqn:Epos. repeat (apply andb_true_iff in H as [H ?]).
+  repeat match goal with X : (_ =? _)%Z = true |- _ => apply Z.eqb_eq in X end. subst pa pb pc.
+  destruct (g_pos g); try discriminate. destruct (g_adj g); try discriminate.
+  destruct (g_digits g); try discriminate. destruct (g_rem g); try discriminate.
+  destruct (g_reverse g); try discriminate. destruct (g_wsum g); try discriminate.
+  destruct (g_summand g); try discriminate. destruct (g_minuend g) as [mm|]; try discriminate.
+  destruct (g_rec g); try discriminate. destruct (g_validate g); try discriminate.
+  match goal with X : zlist_eqb (g_weights g) _ = true |- _ => apply zlist_eqb_eq in X end.
+  match goal with X : (mm =? 10)%Z = true |- _ => apply Z.eqb_eq in X; subst mm end.
+  repeat split; assumption.
+Qed.
+
+(* the template on an account (ten digits) whose first digit is 0: all of positions 2..9 are evaluated *)
+Lemma m68_short acc :
+  forallb is_ascii_digit acc = true -> List.length acc = 10%nat -> nth 0 acc 0%N = 48%N ->
+  exists r0, compute_core nd 10 g acc = Ok (str_of_Z r0, (tsum CrossSum w21 (rev (span 2 9 (digs acc))) mod 10)%Z)
+    /\ (0 <= r0 <= 99)%Z
+    /\ std 2 9 10 w21 CrossSum 10 Minus10 (digs acc) = (pos 10 (digs acc) =? r0)%Z
+    /\ validate_default nd 10 g acc = Ok (std 2 9 10 w21 CrossSum 10 Minus10 (digs acc)).
+Proof using All.
+  intros Hd Hl H0.
+  destruct ok68_facts as (Epos & Kpos & Kadj & Kdig & Krem & Krev & Kws & Ksum & Kw & Kmod & Kmin & Krec & Kv).
+  assert (Hadj : adjust g acc = acc) by (unfold adjust; rewrite Kadj; reflexivity).
+  assert (Hposof : positions_of g acc = Ok (1%Z, 9%Z, Z.of_nat 10)) by (unfold positions_of; rewrite Kpos, Epos; reflexivity).
+  set (body := sl 0 9 acc).
+  assert (Hbd : forallb is_ascii_digit body = true) by (apply sl_forallb; exact Hd).
+  assert (Lb : List.length body = 9%nat) by (unfold body; rewrite sl_length by lia; reflexivity).
+  assert (Hb0 : exists rest, body = 48%N :: rest /\ List.length rest = 8%nat).
+  { destruct body as [|y rest] eqn:Eb; [discriminate|]. exists rest. split; [|cbn [List.length] in Lb; lia].
+    f_equal. rewrite <- H0. change y with (nth 0 (y :: rest) 0%N). rewrite <- Eb. unfold body. rewrite sl_nth by lia. reflexivity. }
+  destruct Hb0 as (rest & Eb & Lr).
+  set (digits := rev (lstrip0 body)).
+  assert (Lstrip : (List.length (lstrip0 body) <= 8)%nat).
+  { rewrite Eb. cbn [lstrip0]. unfold c0. rewrite N.eqb_refl. pose proof (lstrip0_length rest). lia. }
+  assert (Hdigits : get_digits nd 10 g acc = Ok digits).
+  { unfold get_digits, digits_default. rewrite Hposof. cbn [bind]. unfold len. rewrite Hl.
+    change (Z.of_nat 10) with 10%Z. cbn [Z.eqb Pos.eqb negb Z.sub Z.leb Z.compare Pos.compare Pos.compare_cont andb Z.opp Z.add Z.pos_sub Z.succ_double Z.pred_double Z.double Pos.pred_double].
+    cbn [bind]. rewrite Krev, Kdig.
+    rewrite py_slice_sub by (unfold len; lia). change (Z.to_nat (9 - 0)) with 9%nat. change (Z.to_nat 0) with 0%nat.
+    change (firstn 9 (skipn 0 acc)) with body. unfold rstrip0. rewrite rev_involutive. fold digits.
+    assert (Hne : (Z.of_nat (List.length digits) =? 9)%Z = false) by (unfold digits; rewrite rev_length; lia).
+    rewrite Hne. reflexivity. }
+  assert (Ddigits : forallb is_ascii_digit digits = true).
+  { unfold digits. pose proof (lstrip0_digits body Hbd) as F. rewrite forallb_forall in *. intros x Hx. apply in_rev in Hx. exact (F x Hx). }
+  assert (Kq : cross_of (g_summand g) = Some CrossSum) by (rewrite Ksum; reflexivity).
+  assert (Hw1 : forallb (fun w => (0 <=? w) && (w <=? 10))%Z (cycle_to (g_weights g) [] (List.length digits)) = true)
+    by (apply cycle_to_forallb; [rewrite Kw; reflexivity|reflexivity]).
+  pose proof (wsum_go_tsum g CrossSum Kq digits _ Ddigits Hw1) as Hsum.
+  assert (ES : tsum CrossSum (cycle_to (g_weights g) [] (List.length digits)) (map dv digits)
+               = tsum CrossSum w21 (rev (span 2 9 (digs acc)))).
+  { rewrite Kw. unfold digits. rewrite (strip_sum CrossSum [2; 1]%Z body Hbd). rewrite Lb.
+    change (cycle_to [2; 1]%Z [] 9) with w21.
+    assert (E1 : map dv body = 0%Z :: span 2 9 (digs acc)).
+    { unfold span, body, sl, digs. destruct acc as [|a0 acc']; [discriminate|]. cbn [nth] in H0. subst a0.
+      change (9 - 0)%nat with 9%nat. change (9 - 2 + 1)%nat with 8%nat. change (2 - 1)%nat with 1%nat.
+      change (skipn 0 (48%N :: acc')) with (48%N :: acc'). change (firstn 9 (48%N :: acc')) with (48%N :: firstn 8 acc').
+      change (map dv (48%N :: firstn 8 acc')) with (0%Z :: map dv (firstn 8 acc')).
+      change (skipn 1 (map dv (48%N :: acc'))) with (map dv acc'). f_equal. symmetry. apply firstn_map. }
+    rewrite E1. cbn [rev]. change [0%Z] with (repeat 0%Z 1). rewrite tsum_zeros. reflexivity. }
+  set (Sm := tsum CrossSum (cycle_to (g_weights g) [] (List.length digits)) (map dv digits)) in *.
+  set (R := (Sm mod 10)%Z).
+  assert (Hrem : remainder_of nd g (wadj g Sm) = Ok R) by (unfold remainder_of, wadj; rewrite Krem, Kws, Kmod; reflexivity).
+  assert (HRr : (0 <= R < 10)%Z) by (apply Z.mod_pos_bound; lia).
+  assert (HR : (0 <= std_checksum g R <= 99)%Z) by (unfold std_checksum; rewrite Kmin; lia).
+  set (r0 := (if (R =? 0)%Z then 0 else 10 - R)%Z).
+  assert (Hrec : reconcile g (std_checksum g R) R = Ok r0).
+  { unfold reconcile, std_checksum. rewrite Krec, Kmin. unfold r0. f_equal.
+    destruct (Z.eqb_spec R 0) as [->|Hne]; [reflexivity|]. replace (10 <=? 10 - R)%Z with false by lia. reflexivity. }
+  exists r0. split.
+  - rewrite (gen_compute_core g 10 1 9 acc acc digits Sm R Hadj Hposof ltac:(lia) Hdigits Hsum Hrem HR Hd Hl), Hrec. cbn [bind].
+    unfold R. rewrite ES. reflexivity.
+  - assert (Estd : std 2 9 10 w21 CrossSum 10 Minus10 (digs acc) = (pos 10 (digs acc) =? r0)%Z).
+    { unfold std, expected. rewrite <- ES. fold R. reflexivity. }
+    split; [unfold r0; destruct (R =? 0)%Z; lia|]. split; [exact Estd|].
+    rewrite (gen_validate g 10 1 9 acc acc digits Sm R Hadj Hposof ltac:(lia) Hdigits Hsum Hrem HR Hd Hl), Hrec. cbn [bind].
+    rewrite Estd. reflexivity.
+Qed.
+
+Lemma lstrip0_nz s : nth 0 s 0%N <> 48%N -> lstrip0 s = s.
+Proof. destruct s as [|x s]; [reflexivity|]. cbn [nth lstrip0]. unfold c0. intro H. destruct (N.eqb_spec x 48); [congruence|reflexivity]. Qed.
+
+Lemma firstn_rev' {A} (l : list A) n : (n <= List.length l)%nat -> firstn n (rev l) = rev (skipn (List.length l - n) l).
+Proof.
+  intro H. rewrite <- (firstn_skipn (List.length l - n) l) at 1. rewrite rev_app_distr.
+  rewrite firstn_app. rewrite rev_length, skipn_length.
+  replace (n - (List.length l - (List.length l - n)))%nat with 0%nat by lia. cbn [firstn]. rewrite app_nil_r.
+  apply firstn_all2. rewrite rev_length, skipn_length. lia.
+Qed.
+
+(* ten-digit account numbers (first digit not 0): position 4 must be 9, and positions 4..9 are evaluated *)
+Lemma m68_long acc :
+  forallb is_ascii_digit acc = true -> List.length acc = 10%nat -> nth 0 acc 0%N <> 48%N ->
+  (nth 3 acc 0%N <> 57%N ->
+     compute_core nd 10 g acc = Err EInvalidBBANChecksum /\ validate_default nd 10 g acc = Err EInvalidBBANChecksum)
+  /\ (nth 3 acc 0%N = 57%N -> validate_default nd 10 g acc = Ok (std 4 9 10 w21 CrossSum 10 Minus10 (digs acc))).
+Proof using All.
+  intros Hd Hl H0.
+  destruct ok68_facts as (Epos & Kpos & Kadj & Kdig & Krem & Krev & Kws & Ksum & Kw & Kmod & Kmin & Krec & Kv).
+  assert (Hadj : adjust g acc = acc) by (unfold adjust; rewrite Kadj; reflexivity).
+  assert (Hposof : positions_of g acc = Ok (1%Z, 9%Z, Z.of_nat 10)) by (unfold positions_of; rewrite Kpos, Epos; reflexivity).
+  set (body := sl 0 9 acc).
+  assert (Hbd : forallb is_ascii_digit body = true) by (apply sl_forallb; exact Hd).
+  assert (Lb : List.length body = 9%nat) by (unfold body; rewrite sl_length by lia; reflexivity).
+  assert (Hb0 : nth 0 body 0%N = nth 0 acc 0%N) by (unfold body; rewrite sl_nth by lia; reflexivity).
+  assert (Hb3 : nth 3 body 0%N = nth 3 acc 0%N) by (unfold body; rewrite sl_nth by lia; reflexivity).
+  assert (Hstrip : lstrip0 body = body) by (apply lstrip0_nz; rewrite Hb0; exact H0).
+  assert (Hgd : get_digits nd 10 g acc =
+                if negb (N.eqb (nth 3 acc 0%N) 57) then Err EInvalidBBANChecksum else Ok (rev (sl 3 9 acc))).
+  { unfold get_digits, digits_default. rewrite Hposof. cbn [bind]. unfold len. rewrite Hl.
+    change (Z.of_nat 10) with 10%Z. cbn [Z.eqb Pos.eqb negb Z.sub Z.leb Z.compare Pos.compare Pos.compare_cont andb Z.opp Z.add Z.pos_sub Z.succ_double Z.pred_double Z.double Pos.pred_double].
+    cbn [bind]. rewrite Krev, Kdig.
+    rewrite py_slice_sub by (unfold len; lia). change (Z.to_nat (9 - 0)) with 9%nat. change (Z.to_nat 0) with 0%nat.
+    change (firstn 9 (skipn 0 acc)) with body. unfold rstrip0. rewrite rev_involutive, Hstrip.
+    rewrite rev_length, Lb. change (Z.of_nat 9 =? 9)%Z with true. cbv iota.
+    change 5%Z with (Z.of_nat 5). rewrite (py_index_nth (rev body) 5) by (rewrite rev_length; lia). cbn [bind].
+    rewrite rev_nth by lia. rewrite Lb. change (9 - 6)%nat with 3%nat. rewrite Hb3.
+    destruct (negb (N.eqb (nth 3 acc 0%N) 57)); [reflexivity|]. f_equal.
+    change 6%Z with (Z.of_nat 6). rewrite py_slice_to_firstn by (rewrite rev_length; lia).
+    rewrite firstn_rev' by lia. rewrite Lb. change (9 - 6)%nat with 3%nat. f_equal.
+    unfold body. rewrite sl_skipn by lia. reflexivity. }
+  split.
+  - intro H3. assert (E : negb (N.eqb (nth 3 acc 0%N) 57) = true) by (apply negb_true_iff, N.eqb_neq; exact H3).
+    rewrite E in Hgd. split.
+    + unfold compute_core. rewrite Hadj, Hgd. reflexivity.
+    + unfold validate_default. cbv zeta. unfold compute_core. rewrite Hadj, Hgd. reflexivity.
+  - intro H3. rewrite H3 in Hgd. change (negb (N.eqb 57 57)) with false in Hgd. cbv iota in Hgd.
+    set (digits := rev (sl 3 9 acc)) in *.
+    assert (Ddigits : forallb is_ascii_digit digits = true).
+    { unfold digits. pose proof (sl_forallb is_ascii_digit 3 9 acc Hd) as F. rewrite forallb_forall in *. intros x Hx. apply in_rev in Hx. exact (F x Hx). }
+    assert (Ld : List.length digits = 6%nat) by (unfold digits; rewrite rev_length, sl_length by lia; reflexivity).
+    assert (Kq : cross_of (g_summand g) = Some CrossSum) by (rewrite Ksum; reflexivity).
+    assert (Hw1 : forallb (fun w => (0 <=? w) && (w <=? 10))%Z (cycle_to (g_weights g) [] (List.length digits)) = true)
+      by (apply cycle_to_forallb; [rewrite Kw; reflexivity|reflexivity]).
+    pose proof (wsum_go_tsum g CrossSum Kq digits _ Ddigits Hw1) as Hsum.
+    assert (ES : tsum CrossSum (cycle_to (g_weights g) [] (List.length digits)) (map dv digits)
+                 = tsum CrossSum w21 (rev (span 4 9 (digs acc)))).
+    { rewrite Kw, Ld. change (cycle_to [2; 1]%Z [] 6) with (firstn 6 w21).
+      assert (E1 : map dv digits = rev (span 4 9 (digs acc))).
+      { unfold digits, span, sl, digs. rewrite map_rev, <- firstn_map, <- skipn_map. reflexivity. }
+      rewrite E1. replace 6%nat with (List.length (rev (span 4 9 (digs acc)))) at 1; [apply tsum_firstn|].
+      rewrite <- E1, map_length. exact Ld. }
+    set (Sm := tsum CrossSum (cycle_to (g_weights g) [] (List.length digits)) (map dv digits)) in *.
+    set (R := (Sm mod 10)%Z).
+    assert (Hrem : remainder_of nd g (wadj g Sm) = Ok R) by (unfold remainder_of, wadj; rewrite Krem, Kws, Kmod; reflexivity).
+    assert (HRr : (0 <= R < 10)%Z) by (apply Z.mod_pos_bound; lia).
+    assert (HR : (0 <= std_checksum g R <= 99)%Z) by (unfold std_checksum; rewrite Kmin; lia).
+    rewrite (gen_validate g 10 1 9 acc acc digits Sm R Hadj Hposof ltac:(lia) Hgd Hsum Hrem HR Hd Hl).
+    unfold reconcile, std_checksum. rewrite Krec, Kmin. cbn [bind]. f_equal.
+    unfold std, expected. rewrite <- ES. fold R.
+    destruct (Z.eqb_spec R 0) as [->|Hne]; [reflexivity|]. replace (10 <=? 10 - R)%Z with false by lia. reflexivity.
+Qed.
+
+Theorem m68_method account :
+  forallb is_ascii_digit account = true -> List.length account = 10%nat ->
+  verdict (validate1 nd tbl 10 g account) = Some (m68 (digs account)).
+Proof using All.
+  intros Hd Hl.
+  destruct ok68_facts as (Epos & Kpos & Kadj & Kdig & Krem & Krev & Kws & Ksum & Kw & Kmod & Kmin & Krec & Kv).
+  unfold validate1. rewrite Kv. unfold int_t.
+  rewrite (int_text_value account Hd (account_nonempty account Hl)). cbn [bind]. unfold m68. cbv zeta.
+  destruct ((400000000 <=? value (digs account)) && (value (digs account) <=? 499999999))%Z; [reflexivity|].
+  (* the account with positions 3 and 4 blanked *)
+  set (acc2 := py_slice_to account 2 ++ tx "00" ++ py_slice_from account 4).
+  assert (Eacc2 : acc2 = firstn 2 account ++ [48%N; 48%N] ++ skipn 4 account).
+  { unfold acc2. change 2%Z with (Z.of_nat 2). change 4%Z with (Z.of_nat 4).
+    rewrite py_slice_to_firstn, py_slice_from_skipn by lia. reflexivity. }
+  assert (Hd2 : forallb is_ascii_digit acc2 = true).
+  { rewrite Eacc2, !forallb_app. rewrite forallb_firstn', forallb_skipn' by exact Hd. reflexivity. }
+  assert (Hl2 : List.length acc2 = 10%nat).
+  { rewrite Eacc2, !app_length, firstn_length, skipn_length, Hl. reflexivity. }
+  destruct account as [|x1 [|x2 [|x3 [|x4 [|x5 [|x6 [|x7 [|x8 [|x9 [|x10 [|x11 rest]]]]]]]]]]]; try discriminate.
+  set (account := [x1; x2; x3; x4; x5; x6; x7; x8; x9; x10]) in *.
+  assert (Eacc2' : acc2 = [x1; x2; 48%N; 48%N; x5; x6; x7; x8; x9; x10]) by (rewrite Eacc2; reflexivity).
+  assert (Edigs2 : digs acc2 = firstn 2 (digs account) ++ [0; 0]%Z ++ skipn 4 (digs account)) by (rewrite Eacc2'; reflexivity).
+  assert (D1 : is_ascii_digit x1 = true /\ is_ascii_digit x4 = true /\ is_ascii_digit x10 = true).
+  { unfold account in Hd. cbn [forallb] in Hd. repeat (apply andb_true_iff in Hd as [? Hd]). repeat split; assumption. }
+  destruct D1 as (Dx1 & Dx4 & Dx10).
+  change (pos 1 (digs account)) with (dv x1). change (pos 4 (digs account)) with (dv x4).
+  assert (E1 : (dv x1 =? 0)%Z = N.eqb x1 48) by (unfold is_ascii_digit, c0, c9 in Dx1; unfold dv; lia).
+  assert (E4 : (dv x4 =? 9)%Z = N.eqb x4 57) by (unfold is_ascii_digit, c0, c9 in Dx4; unfold dv; lia).
+  rewrite E1, E4, <- Edigs2.
+  destruct (N.eqb_spec x1 48) as [Hx1|Hx1]; cbn [negb].
+  - (* short account numbers *)
+    destruct (m68_short account Hd Hl Hx1) as (r0 & _ & _ & _ & Hv). rewrite Hv. cbn [bind].
+    destruct (std 2 9 10 w21 CrossSum 10 Minus10 (digs account)); [reflexivity|]. cbn [orb].
+    assert (Hx1' : nth 0 acc2 0%N = 48%N) by (rewrite Eacc2'; exact Hx1).
+    destruct (m68_short acc2 Hd2 Hl2 Hx1') as (r2 & Hcc & Hr2 & Hstd & _). rewrite Hcc, Epos. cbn [bind fst].
+    change (char_at account (10 - 1)) with (Ok [x10] : outcome text). cbn [bind].
+    rewrite (str_eq_digit r2 x10 Hr2 Dx10), Hstd. rewrite Eacc2'. reflexivity.
+  - (* ten-digit account numbers *)
+    destruct (m68_long account Hd Hl Hx1) as [Hbad Hgood].
+    destruct (N.eqb_spec x4 57) as [Hx4|Hx4]; cbn [andb].
+    + rewrite (Hgood Hx4). cbn [bind].
+      destruct (std 4 9 10 w21 CrossSum 10 Minus10 (digs account)); [reflexivity|].
+      assert (H0' : nth 0 acc2 0%N <> 48%N) by (rewrite Eacc2'; exact Hx1).
+      destruct (m68_long acc2 Hd2 Hl2 H0') as [Hbad2 _].
+      assert (H3' : nth 3 acc2 0%N <> 57%N) by (rewrite Eacc2'; cbn [nth]; lia).
+      rewrite (proj1 (Hbad2 H3')). reflexivity.
+    + rewrite (proj2 (Hbad Hx4)). reflexivity.
+Qed.
+End M68.
 End German.
